@@ -5,7 +5,14 @@
 
 use std::future::Future;
 use std::pin::Pin;
-use std::sync::atomic::{AtomicBool, Ordering};
+use std::sync::atomic::{AtomicBool, AtomicU64, Ordering};
+
+/// Logical clock: number of scheduler steps taken so far (read by the wire to timestamp I/O).
+pub static STEP: AtomicU64 = AtomicU64::new(0);
+
+pub fn now() -> u64 {
+    STEP.load(Ordering::SeqCst)
+}
 use std::sync::Arc;
 use std::task::{Context, Poll, Wake, Waker};
 use vref::prng::Rng;
@@ -73,6 +80,8 @@ pub struct Sched<'a> {
     pub ex_ticks: u64,
     pub net_events: u64,
     pub h_polls: u64,
+    /// (logical time, actor) of every step taken
+    pub hist: Vec<(u64, Actor)>,
 }
 
 impl<'a> Sched<'a> {
@@ -91,6 +100,7 @@ impl<'a> Sched<'a> {
             ex_ticks: 0,
             net_events: 0,
             h_polls: 0,
+            hist: Vec::new(),
         }
     }
 
@@ -117,6 +127,11 @@ impl<'a> Sched<'a> {
 
     pub fn is_done(&self, i: usize) -> bool {
         self.tasks[i].done()
+    }
+
+    /// Mark a harness future runnable (an environment event it must notice).
+    pub fn wake(&mut self, i: usize) {
+        self.tasks[i].flag.0.store(true, Ordering::SeqCst);
     }
 
     /// Drop a harness future (cancellation).
@@ -171,6 +186,8 @@ impl<'a> Sched<'a> {
                 let k = self.rng.usize_below(ex.len());
                 let e = ex[k];
                 if tick(&self.executors[e]) {
+                    let t = STEP.fetch_add(1, Ordering::SeqCst) + 1;
+                    self.hist.push((t, Actor::Ex(e)));
                     self.trace.push(b'E');
                     self.ex_ticks += 1;
                     self.steps += 1;
@@ -179,7 +196,9 @@ impl<'a> Sched<'a> {
                 ex.remove(k);
             } else if r < we + wh {
                 let k = self.rng.usize_below(h.len());
+                STEP.fetch_add(1, Ordering::SeqCst);
                 if self.poll_task(h[k]) {
+                    self.hist.push((now(), Actor::H(h[k])));
                     self.trace.push(b'H');
                     self.steps += 1;
                     return true;
@@ -187,7 +206,9 @@ impl<'a> Sched<'a> {
             } else {
                 let k = self.rng.usize_below(net.len());
                 let n = net[k];
+                STEP.fetch_add(1, Ordering::SeqCst);
                 if (self.nets[n])() {
+                    self.hist.push((now(), Actor::Net(n)));
                     self.trace.push(b'N');
                     self.net_events += 1;
                     self.steps += 1;
